@@ -174,6 +174,48 @@ AclAcceptIface(acl, hops) ==
 AclAcceptHop(acl, hops) ==
     \A k \in 1..Len(hops) : LET M(p) == HopMatch(p, hops[k], "num") IN FirstAction(acl, M)
 
+-----------------------------------------------------------------------------
+(* Policy definitions with inheritance (pathpol.ExtPolicy -> Policy) and the ISD-AS filters.
+   def   [acl (<<>>: unset), seq ([t |-> "none"]: unset), opts (<<>>: unset), local (<<>>: unset; list of
+         [isd, as]), remote (<<>>: unset; list of [isd, as, rej]), ext (indices into the pool of named
+         definitions, in the order of the `extends` list)]
+   An attribute set in the extending policy wins; otherwise the last policy of the extends list that has
+   it wins; extended policies are resolved recursively.                                         *)
+NoSeqDef == [t |-> "none"]
+
+MergeDef(p, q) == [acl |-> IF Len(p.acl) = 0 THEN q.acl ELSE p.acl,
+                   seq |-> IF p.seq.t = "none" THEN q.seq ELSE p.seq,
+                   opts |-> IF Len(p.opts) = 0 THEN q.opts ELSE p.opts,
+                   local |-> IF Len(p.local) = 0 THEN q.local ELSE p.local,
+                   remote |-> IF Len(p.remote) = 0 THEN q.remote ELSE p.remote,
+                   ext |-> <<>>]
+
+RECURSIVE ResolveDef(_, _)
+RECURSIVE ApplyExt(_, _, _, _)
+ResolveDef(p, pool) == ApplyExt(p, p.ext, pool, Len(p.ext))
+ApplyExt(p, ext, pool, i) ==      \* traverse the extends list from its end, so that the last entry has precedence
+    IF i = 0 THEN [p EXCEPT !.ext = <<>>]
+    ELSE ApplyExt(MergeDef(p, ResolveDef(pool[ext[i]], pool)), ext, pool, i - 1)
+
+SrcIA(hops) == [isd |-> hops[1].isd, as |-> hops[1].as]
+DstIA(hops) == [isd |-> hops[Len(hops)].isd, as |-> hops[Len(hops)].as]
+
+\* LocalISDAS: the first hop (local AS) belongs to the set; strict = the code also drops paths whose source
+\* and destination AS coincide (and the empty path)
+LocalAccept(local, hops, strict) ==
+    \/ Len(local) = 0
+    \/ /\ Len(hops) > 0
+       /\ \E k \in 1..Len(local) : local[k].isd = SrcIA(hops).isd /\ local[k].as = SrcIA(hops).as
+       /\ (strict => SrcIA(hops) # DstIA(hops))
+
+\* RemoteISDAS: the first rule matching the last hop's ISD-AS (0 = wildcard) wins; no rule: rejected
+RemoteAccept(remote, hops) ==
+    \/ Len(remote) = 0
+    \/ /\ Len(hops) > 0
+       /\ LET d == DstIA(hops)
+              hit == {k \in 1..Len(remote) : IfOk(remote[k].isd, d.isd) /\ (remote[k].as = WildAS \/ remote[k].as = d.as)} IN
+          hit # {} /\ remote[CHOOSE k \in hit : \A j \in hit : k <= j].rej = 0
+
 \* order-preserving filter: the kept indices are ascending and are exactly the accepted ones
 StrictlyIncreasing(s) == \A i \in 1..(Len(s) - 1) : s[i] < s[i + 1]
 RangeOf(s) == {s[i] : i \in 1..Len(s)}
